@@ -157,6 +157,22 @@ pub fn expand(mac: Mac, b64: &str, q: &GQuery) -> Result<Result<TokenStream, Str
     };
     let dec = format!("({}), {{ {} }}", bools.iter().map(|b| b.to_string()).collect::<Vec<_>>().join(", "), inner);
     let dts = TokenStream::from_str(&dec).map_err(|e| e.to_string())?;
+    // the inline cfg-probing chain of the query macro is part of the expansion too
+    {
+        let its2 = TokenStream::from_str(&inner).map_err(|e| e.to_string())?;
+        let chain = catch_unwind(AssertUnwindSafe(|| -> Option<TokenStream> {
+            match mac {
+                Mac::Find | Mac::FindBorrow => syn::parse2::<parse::ParseQueryFind>(its2.clone()).ok().map(|p| generate::generate_cfg_checks_inner("find", &p, its2.clone())),
+                Mac::Iter | Mac::IterBorrow => syn::parse2::<parse::ParseQueryIter>(its2.clone()).ok().map(|p| generate::generate_cfg_checks_inner("iter", &p, its2.clone())),
+                Mac::IterDestroy => syn::parse2::<parse::ParseQueryIterDestroy>(its2.clone()).ok().map(|p| generate::generate_cfg_checks_inner("iter_destroy", &p, its2.clone())),
+            }
+        }));
+        if let Ok(Some(ts)) = chain {
+            if walk::has_unsafe(ts) {
+                return Err("UNSAFE-TOKEN in the query's cfg-probing chain".into());
+            }
+        }
+    }
     let r = catch_unwind(AssertUnwindSafe(|| -> Result<TokenStream, String> {
         match mac {
             Mac::Find => generate::generate_query_find(FetchMode::Mut, syn::parse2(dts).map_err(|e| e.to_string())?).map_err(|e| e.to_string()),
@@ -331,6 +347,34 @@ pub fn run_e3(seed: u64, shard: u64, n: usize) -> Rep {
                 }
             }
         }
+        // ---- C18: the cfg-probing chain emitted for this declaration, and ecs_component_id! ----
+        {
+            let body = world_body_src(&w);
+            let chain = catch_unwind(AssertUnwindSafe(|| -> Result<TokenStream, String> {
+                let ts = TokenStream::from_str(&body).map_err(|e| e.to_string())?;
+                let parsed: parse::ParseEcsWorld = syn::parse2(ts.clone()).map_err(|e| e.to_string())?;
+                Ok(generate::generate_cfg_checks_outer("world", &parsed, ts))
+            }));
+            match chain {
+                Ok(Ok(ts)) => {
+                    rep.count("cfg_chain_expansions_scanned");
+                    if walk::has_unsafe(ts) {
+                        rep.violate(&["C18"], "unsafe-token", format!("{ctx}: the cfg-probing chain contains `unsafe`"));
+                        break;
+                    }
+                }
+                _ => {
+                    rep.violate(&["C16", "C18"], "declaration", format!("{ctx}: generate_cfg_checks_outer failed"));
+                    break;
+                }
+            }
+            if let Ok(cid) = syn::parse2::<parse::ParseEcsComponentId>(TokenStream::from_str("Ca, Aa").unwrap()) {
+                if walk::has_unsafe(generate::generate_ecs_component_id(cid)) {
+                    rep.violate(&["C18"], "unsafe-token", "ecs_component_id! expansion contains `unsafe`".into());
+                    break;
+                }
+            }
+        }
         // ---- C18: the world expansion ----
         let wt = catch_unwind(AssertUnwindSafe(|| generate::generate_world(&d, &ctx)));
         match wt {
@@ -365,7 +409,8 @@ pub fn run_e3(seed: u64, shard: u64, n: usize) -> Rep {
                 let got = match expand(mac, &b64, &q) {
                     Ok(g) => g,
                     Err(e) => {
-                        rep.violate(&["C05"], "expansion", format!("{qctx} [{}]: {e}", mac.name()));
+                        let tags: &[&'static str] = if e.contains("UNSAFE-TOKEN") { &["C18"] } else { &["C05"] };
+                        rep.violate(tags, "expansion", format!("{qctx} [{}]: {e}", mac.name()));
                         break;
                     }
                 };
